@@ -20,11 +20,55 @@ import (
 	"sync"
 )
 
-// TestSig is the signature of the template under test in generated files;
-// Helpers are appended so that the files compile on their own.
-const TestSig = "t(s string, b bool, vs []string, at templ.Attributes)"
+// TestSig is the signature of the template under test in generated files; the
+// identifiers used in bodies are its parameters or live in HelpersGo.
+const TestSig = "t(s string, b bool, vs []string)"
 
-const Helpers = "templ c() {\n\t<b>c</b>\n}\n\ntempl w() {\n\t<u>\n\t\t{ children... }\n\t</u>\n}\n\nfunc f(s string) string { return s }\n\nfunc g(s string) (string, error) { return s, nil }\n"
+// HelpersGo is a Go file that makes packages of generated files compile (the
+// compile-and-render sample of the thorough tier writes it next to them).
+const HelpersGo = `package main
+
+import (
+	"context"
+	"io"
+
+	"github.com/a-h/templ"
+)
+
+var (
+	at  = templ.Attributes{"data-at": "1"}
+	st  = stT{}
+	v   = templ.Raw("<b>v</b>")
+	_   = at
+)
+
+type stT struct{}
+
+func (stT) c() templ.Component { return c() }
+
+type comp struct{ A string }
+
+func (x comp) Render(ctx context.Context, w io.Writer) error { _, err := io.WriteString(w, x.A); return err }
+
+func c() templ.Component                 { return templ.Raw("<b>c</b>") }
+func c2(s string, b bool) templ.Component { return templ.Raw("<b>c2</b>") }
+func w() templ.Component {
+	return templ.ComponentFunc(func(ctx context.Context, wr io.Writer) error {
+		io.WriteString(wr, "<u>")
+		if err := templ.GetChildren(ctx).Render(templ.ClearChildren(ctx), wr); err != nil {
+			return err
+		}
+		_, err := io.WriteString(wr, "</u>")
+		return err
+	})
+}
+func w2(s string) templ.Component       { return w() }
+func f(s string) string                 { return s }
+func f2(s string) templ.Attributes      { return templ.Attributes{"data-f": s} }
+func g(s string) (string, error)        { return s, nil }
+func js(s string) templ.ComponentScript { return templ.ComponentScript{Name: "js", Function: "function js(){}", Call: "js()", CallInline: "js()"} }
+func cl() templ.CSSClass                { return templ.ConstantCSSClass("cl") }
+`
 
 // LeafKinds is the node-kind alphabet of the matrix, in canonical spelling.
 var LeafKinds = []struct {
@@ -32,12 +76,15 @@ var LeafKinds = []struct {
 	Text string
 }{
 	{"text", "aa"},
+	{"dash", "-"},
 	{"expr", "{ s }"},
 	{"span", "<span>x</span>"},
 	{"div", "<div>x</div>"},
 	{"br", "<br/>"},
 	{"input", "<input/>"},
 	{"emptyspan", "<span></span>"},
+	{"spanml", "<span>aa\n</span>"},
+	{"divml", "<div>aa\n</div>"},
 	{"htmlcomment", "<!-- c -->"},
 	{"gocomment", "/* c */"},
 	{"goline", "// c\n"},
@@ -46,6 +93,7 @@ var LeafKinds = []struct {
 	{"legacycall", "{! c() }"},
 	{"children", "{ children... }"},
 	{"if", "if b {\n<i>x</i>\n}"},
+	{"iftext", "if b {\naa}"},
 	{"ifelse", "if b {\n<i>x</i>\n} else {\n<i>y</i>\n}"},
 	{"for", "for _, v := range vs {\n<i>{ v }</i>\n}"},
 	{"switch", "switch s {\ncase \"a\":\n<i>x</i>\n}"},
@@ -82,7 +130,7 @@ type Cell struct {
 
 // FileOf wraps a body into a self-contained file.
 func FileOf(body string) string {
-	return "package main\n\ntempl " + TestSig + " {\n" + body + "}\n\n" + Helpers
+	return "package main\n\ntempl " + TestSig + " {\n" + body + "}\n"
 }
 
 // BareFileOf wraps a body into the minimal file the reducer converges to.
@@ -304,6 +352,12 @@ func CellList() []Cell {
 	add("attr-expr-multi", "<div class={\n\"a\",\n\"b\",\n}>x</div>")
 	add("attr-expr-multi-noindent", "<div class={ \"a\",\n\"b\" }>x</div>")
 	add("attr-expr-multi-call", "<div title={ f(\ns,\n) }>x</div>")
+	add("attr-expr-multi-first-inline", "<div title={ \"a\",\n\"b\",\n}>x</div>")
+	add("attr-expr-multi-lead-newline", "<div title={\n\"a\" }>x</div>")
+	add("attr-expr-multi-comment", "<div class={\n\"a\", // c\n\"b\",\n}>x</div>")
+	add("attr-expr-multi-trailing-comma-inline", "<div title={ \"a\",\n\"b\", }>x</div>")
+	add("attr-expr-leadcomment", `<div title={ /* c */ s }>x</div>`)
+	add("attr-expr-linecomment-tail", "<div title={ \"a\", // c\n}>x</div>")
 	add("attr-expr-two", `<div class={ "a", templ.KV("b", b) }>x</div>`)
 	add("attr-expr-error", `<div title={ g(s) }>x</div>`)
 	add("attr-expr-rawstring", "<div title={ `a\"b` }>x</div>")
@@ -382,6 +436,8 @@ func CellList() []Cell {
 	add("expr-text-tight", `<div>a{ s }b</div>`)
 	add("expr-text-space", `<div>a { s } b</div>`)
 	add("expr-whitespace-literal", `<div>{ " " }</div>`)
+	add("expr-variadic", `<div>{ vs... }</div>`)
+	add("expr-variadic-top", `{ vs... }`)
 	add("expr-trailing-tab", "<div>{ s\t}</div>")
 	// --- calls
 	add("call-args", `@c2(s, b)`)
@@ -412,6 +468,7 @@ func CellList() []Cell {
 	add("gocode-multi-tight", "{{ v := 1\nu := 2 }}")
 	add("gocode-comment", `{{ v := 1 /* c */ }}`)
 	add("gocode-linecomment", "{{ v := 1 // c\n}}")
+	add("gocode-two-statements", `{{ v := 1; u := 2 }}`)
 	add("gocode-empty", `{{ }}`)
 	add("gocode-in-div", `<div>{{ v := 1 }}{ s }</div>`)
 	add("gocode-in-div-space", `<div>{{ v := 1 }} { s }</div>`)
@@ -566,6 +623,7 @@ func fileCells() []Cell {
 	add("file-script-noargs", "package main\n\nscript sc() {\n\tvar x = {a: 1};\n\tif (x.a) { x.a++ }\n}\n\n"+t)
 	add("file-script-args-multi", "package main\n\nscript sc(\n\ta string,\n\tb int,\n) {\n\talert(a);\n}\n\n"+t)
 	add("file-script-strings", "package main\n\nscript sc(a string) {\n\tvar s = \"}\"; var t = '{'; // }\n\t/* { */\n}\n\n"+t)
+	add("file-script-args-trailing-comma", "package main\n\nscript sc(\n\ta string, ) {\n\talert(a);\n}\n\n"+t)
 	add("file-script-args-unformatted", "package main\n\nscript sc(a string,b int) {\n\talert(a);\n}\n\n"+t)
 	add("file-header-comment", "// hello\npackage main\n\n"+t)
 	add("file-header-comment-blank", "// hello\n\npackage main\n\n"+t)
@@ -595,6 +653,16 @@ func fileCells() []Cell {
 	add("file-templ-many-blank", "package main\n\n\n\ntempl t() {\n<div>x</div>\n}\n\n\n\ntempl u() {\n<p>y</p>\n}\n\n\n")
 	add("file-no-trailing-newline", "package main\n\ntempl t() {\n<div>x</div>\n}")
 	add("file-crlf", "package main\r\n\r\ntempl t() {\r\n<div>x</div>\r\n}\r\n")
+	add("file-no-package", "\ntempl t() {\n<div>x</div>\n}\n")
+	add("file-no-package-comment", "// c\n\ntempl t() {\n<div>x</div>\n}\n")
+	add("file-sig-comment", "package main\n\ntempl t(a string /* c */) {\n<div>x</div>\n}\n")
+	add("file-sig-linecomment", "package main\n\ntempl t(a string, // c\n) {\n<div>x</div>\n}\n")
+	add("file-sig-comment-before-name", "package main\n\ntempl /* c */ t() {\n<div>x</div>\n}\n")
+	add("file-sig-blockcomment-in-type", "package main\n\ntempl t(a [ /* c */ ]string) {\n<div>x</div>\n}\n")
+	add("file-sig-linecomment-in-type", "package main\n\ntempl t(a [ // c\n]string) {\n<div>x</div>\n}\n")
+	add("file-header-build-tag-only", "//go:build p\n")
+	add("file-header-build-tag-only-no-newline", "//go:build p")
+	add("file-header-comment-only", "// c")
 	add("file-package-comment-same-line", "package main // c\n\n"+t)
 	return cells
 }
@@ -655,7 +723,7 @@ func BodyOf(src string) (string, bool) {
 	for _, pre := range []string{"package main\n\ntempl t() {\n", "package main\n\ntempl " + TestSig + " {\n"} {
 		if strings.HasPrefix(src, pre) {
 			rest := src[len(pre):]
-			for _, suf := range []string{"}\n", "}\n\n" + Helpers} {
+			for _, suf := range []string{"}\n"} {
 				if strings.HasSuffix(rest, suf) {
 					body := rest[:len(rest)-len(suf)]
 					if !strings.Contains(body, "\ntempl ") {
